@@ -1,9 +1,13 @@
 import Pw.C01.Driver
+import Pw.C06.Driver
+import Pw.C07.Driver
 open Proto
 
 /-- all request handlers; each property contributes `CNN.handlers` -/
 def handlers : List (String × Handler) :=
   C01.handlers
+  ++ C06.handlers
+  ++ C07.handlers
 
 def dispatch (line : String) : String :=
   let (fn, args) := parseLine line
